@@ -10,6 +10,11 @@ def main(path, window=45):
     w = json.load(open(path))
     run = w.get('run') or {}
     print('property %s  key %s  (%s observations)' % (w['property'], w['key'], w.get('count')))
+    if run.get('profile') in ('prefill', 'threads', 'memcheck', 'c15') or w['property'] in ('C15', 'C17'):
+        print('differential / structural witness (shape %s, flavour %s):' % (run.get('shape'), run.get('flavour')))
+        print(json.dumps(w.get('first'), indent=1, default=str)[:4000])
+        print('re-run: VERIF_SEED=%s python3 bin/check.py %s --tier %s' % (w.get('seed'), w['property'], w.get('tier')))
+        return 1
     if 'cmd' in run:      # unit harness witness
         print('re-run:', run['cmd']); return os.system(run['cmd']) >> 8
     sj = run['sj']; flavour = run['flavour']
